@@ -284,17 +284,15 @@ theorem hexAccum_bad_byte (s : List Nat) (b : Nat) (hb : b ∈ s) (hbad : ¬ IsH
   | nil => cases hb
   | cons x xs ih =>
     intro acc
-    simp only [hexAccum]
-    split
-    · rfl
-    · split
-      · rcases List.mem_cons.mp hb with h | h
-        · subst h
-          rename_i d hd _
-          rewrite [hexVal_none_of_not_digit b hbad] at hd
-          cases hd
-        · exact ih h _
+    rcases List.mem_cons.mp hb with h | h
+    · subst h
+      simp only [hexAccum, hexVal_none_of_not_digit b hbad]
+    · simp only [hexAccum]
+      split
       · rfl
+      · split
+        · exact ih h _
+        · rfl
 
 /-! ### the formatter -/
 
